@@ -21,3 +21,13 @@ TARGETS["C18"] = dict(
     execs=[dict(name="bits", harness="harness/C18_bits.c", repo=LIBUPIPE, engine=MEMFIX)],
     quick=dict(cases=30000, budget=40), thorough=dict(cases=600000, budget=400),
 )
+
+TARGETS["C03"] = dict(
+    rule=("tape-decoded history (<=50 ops) over <=6 block handles: alloc/alloc_from_opaque/dup/splice/split/append/insert/delete/truncate/resize/prepend/copy/merge/write/free "
+          "with boundary-biased offsets and sizes (negative, -1, segment boundary +-1, out of range) under a generated manager configuration; after each op a tape-chosen "
+          "first access (read/extract/peek/size_linear/scan/find/compare/equal/match) then every handle compared with its byte-vector model through size, extract, read loop, iovec and peek; "
+          "non-trivial = a multi-segment handle whose accessor crossed a segment boundary, or an error path taken, or an access right after a cache-moving op; distinct by hash of ops+arguments"),
+    assumptions=["byte-vector reference model in the harness", "documented argument domains derived from include/upipe/ubuf_block.h comments", "ASan + exact-size umem areas"],
+    execs=[dict(name="blockstr", harness="harness/C03_blockstr.c", repo=LIBUPIPE, engine=MEMFIX)],
+    quick=dict(cases=8000, budget=45), thorough=dict(cases=200000, budget=600),
+)
